@@ -405,6 +405,18 @@ impl Scenario for C15Threads {
         detail: format!("threads {:?} (0 complete, 1 error, 2 unsubscribe): {} reached the subscriber (stamp {}) after the finalizer had started (stamp {})", case.threads, fmt_ev(&r.ev), r.seq, fin.entry.load(SeqCst)),
       });
     }
+    if violation.is_none() {
+      // ... and it must not start while the terminal is still being handed to
+      // the subscriber on another thread
+      let f = fin.entry.load(SeqCst);
+      if let Some(r) = log.records().iter().find(|r| r.ev.is_terminal() && r.seq < f && f < r.seq_out) {
+        violation = Some(Violation {
+          rule: "c15.finalizer-during-terminal-delivery".into(),
+          site: site.clone(),
+          detail: format!("threads {:?} (0 complete, 1 error, 2 unsubscribe): the finalizer started (stamp {}) while {} was still being delivered to the subscriber on thread {} (stamps {}..{})", case.threads, f, fmt_ev(&r.ev), r.tid, r.seq, r.seq_out),
+        });
+      }
+    }
     let mut resolved = case.clone();
     resolved.sched = SchedSpec::Explicit(rep.decisions.clone());
     let evs = log.events();
